@@ -27,13 +27,13 @@ struct value_spec
     bool wreq = true;        // ask the point for its weight
 };
 
-template <typename T> inline T value_of(value_spec const& v)
+template <typename T> inline T value_of(value_spec const& v, int vexp = 0)
 {
     std::string t(v.tag);
     if (t == "nan") return std::numeric_limits<T>::quiet_NaN();
     if (t == "+inf") return std::numeric_limits<T>::infinity();
     if (t == "-inf") return -std::numeric_limits<T>::infinity();
-    return T(v.f);
+    return std::ldexp(T(v.f), vexp);
 }
 
 struct iter_cfg
@@ -73,6 +73,7 @@ struct call_ctx
     std::vector<T> last_dens;
     bool log_calls = true;
     bool dists = false;      // run the integrand with one distribution (the other accumulator specialisation)
+    int vexp = 0;            // all integrand values are multiplied by 2^vexp (to reach the subnormal range)
     int jac_pow = 0;
 
     value_spec const& spec() const { return plan[call % plan.size()]; }
@@ -173,7 +174,7 @@ struct traced_plain_fn
         if (vs.wreq) { if (x.log_calls) ev("WeightReq").emit(); w = p.weight(); }
         int_end(x, vs, true, w, std::vector<long long>());
         ++x.call;
-        return value_of<T>(vs);
+        return value_of<T>(vs, c->vexp);
     }
 };
 
@@ -213,7 +214,7 @@ struct traced_vegas_fn
         if (vs.wreq) { if (x.log_calls) ev("WeightReq").emit(); w = p.weight(); }
         int_end(x, vs, true, w, bins);
         ++x.call;
-        return value_of<T>(vs);
+        return value_of<T>(vs, c->vexp);
     }
 };
 
@@ -242,7 +243,7 @@ struct traced_mc_fn
         if (vs.wreq) { if (x.log_calls) ev("WeightReq").emit(); w = p.weight(); }
         int_end(x, vs, vs.wreq, w, std::vector<long long>());
         ++x.call;
-        return value_of<T>(vs);
+        return value_of<T>(vs, c->vexp);
     }
 };
 
@@ -260,10 +261,11 @@ inline void iter_end(call_ctx<T>& c, R const& res, std::vector<long long> const&
     unsigned long long tail = cnt().draws - c.last_draws;
     c.last_draws = cnt().draws;
     long long N = (long long) res.calls();
-    bool se = is_exact_scaled(res.sum(), WS) && is_exact_scaled(res.sum_of_squares(), 2 * WS);
+    int const ve = c.vexp;
+    bool se = ve ? is_exact_scaled(res.sum(), WS - ve) : (is_exact_scaled(res.sum(), WS) && is_exact_scaled(res.sum_of_squares(), 2 * WS));
     // derived quantities: value * N = sum and variance * N^2 (N - 1) = N sumsq - sum^2, projected with rounding
     long long dv = 0, dq = 0, derived = 0;
-    if (se && N >= 2)
+    if (se && N >= 2 && !ve)
     {
         long double vN = (long double) res.value() * N;
         long double qq = (long double) res.variance() * N * N * (N - 1);
@@ -276,9 +278,9 @@ inline void iter_end(call_ctx<T>& c, R const& res, std::vector<long long> const&
         dq = 0;
     }
     ev("IterEnd").i("calls", N).i("nz", (long long) res.non_zero_calls()).i("fin", (long long) res.finite_calls())
-        .i("sumExact", se ? 1 : 0).i("sum", se ? exact_scaled(res.sum(), WS) : 0).i("sumsq", se ? exact_scaled(res.sum_of_squares(), 2 * WS) : 0)
+        .i("sumExact", se ? 1 : 0).i("sum", se ? exact_scaled(res.sum(), WS - ve) : 0).i("sumsq", (se && !ve) ? exact_scaled(res.sum_of_squares(), 2 * WS) : 0)
         .a("adj", adj).i("tail", (long long) tail).i("genEq", gen_eq ? 1 : 0).i("predK", (long long) pred_k)
-        .i("derivedOK", N >= 2 && se ? derived : 1).i("finite", std::isfinite(res.sum()) && std::isfinite(res.sum_of_squares()) ? 1 : 0).emit();
+        .i("derivedOK", (N >= 2 && se && !ve) ? derived : 1).i("finite", std::isfinite(res.sum()) && std::isfinite(res.sum_of_squares()) ? 1 : 0).emit();
 }
 
 // number of raw draws per canonical number as measured on a copy of the engine (not the library's predictor)
@@ -311,7 +313,7 @@ inline void run_plain(call_ctx<T>& c, E const& engine, std::vector<std::size_t> 
     {
         c.cfg.calls = N;
         ev("IterBegin").s("kind", "plain").s("T", type_name<T>::get()).i("d", (long long) c.cfg.d).i("k", (long long) k).i("n", 0)
-            .a("w", std::vector<int>()).i("bins", 0).i("calls", (long long) N).emit();
+            .a("w", std::vector<int>()).i("bins", 0).i("calls", (long long) N).i("noSq", c.vexp != 0 ? 1 : 0).emit();
         c.last_draws = cnt().draws;
         E before = chk.generator();
         if (c.dists)
@@ -343,7 +345,7 @@ inline void run_vegas(call_ctx<T>& c, E const& engine, hep::vegas_pdf<T> const& 
         hep::vegas_pdf<T> pdf = chk.pdf();
         c.pdf = &pdf;
         ev("IterBegin").s("kind", "vegas").s("T", type_name<T>::get()).i("d", (long long) c.cfg.d).i("k", (long long) k).i("n", 0)
-            .a("w", std::vector<int>()).i("bins", (long long) c.cfg.bins).i("calls", (long long) N).emit();
+            .a("w", std::vector<int>()).i("bins", (long long) c.cfg.bins).i("calls", (long long) N).i("noSq", c.vexp != 0 ? 1 : 0).emit();
         c.last_draws = cnt().draws;
         E before = chk.generator();
         if (c.dists)
@@ -374,7 +376,7 @@ inline void run_mc(call_ctx<T>& c, E const& engine, std::vector<T> const& weight
         c.cfg.w.clear();
         for (T x : cw) c.cfg.w.push_back(x != T() ? 1 : 0);
         ev("IterBegin").s("kind", "mc").s("T", type_name<T>::get()).i("d", (long long) c.cfg.d).i("k", (long long) k).i("n", (long long) n)
-            .a("w", c.cfg.w).i("bins", 0).i("calls", (long long) N).emit();
+            .a("w", c.cfg.w).i("bins", 0).i("calls", (long long) N).i("noSq", c.vexp != 0 ? 1 : 0).emit();
         c.last_draws = cnt().draws;
         E before = chk.generator();
         if (c.dists)
